@@ -1015,13 +1015,16 @@ class ExprModule:
 
 class _CarrayShim:
     """Stands in for the `numba` module when a generated *_numba.py is executed as plain Python: carray(ptr, shape)
-    returns a view of the *real* buffer behind ptr (the declared shape is not what is under test here)."""
+    returns a view of the *real* buffer behind ptr, cut to the declared number of entries."""
 
     def __init__(self):
         self.buffers = {}
 
     def carray(self, ptr, shape, dtype=None):
-        return self.buffers[int(ptr)]
+        # the view has the extent the generated code declares: an access beyond it is an IndexError here
+        # (numba itself checks bounds only with NUMBA_BOUNDSCHECK=1)
+        n = int(np.prod(shape)) if not isinstance(shape, int) else int(shape)
+        return self.buffers[int(ptr)][:n]
 
     def __getattr__(self, name):
         import numba
